@@ -36,6 +36,7 @@ def must_see(tier):
         m[impl + ':stored:sweep'] = 300
         m[impl + ':read-dependency-refused'] = 20
         m[impl + ':load-refused'] = 20
+    m['py:registration-refused'] = 10
     return m
 
 
